@@ -288,6 +288,68 @@ func VerifC17Nodes(n, ne int) {
 	verifrt.Assert(len(got) <= n, "no foreign nodes")
 }
 
+// VerifC17NodesWindow: AcyclicTraverseNodes with a node filter and skip/limit on a graph
+// in which every node reachable from the root is reached over exactly one edge (so that the
+// order of arrival cannot matter): the root if it passes the filter, plus a window of the
+// reachable nodes that pass the filter - nodes the filter rejects use up neither skip ticks
+// nor limit slots.
+func VerifC17NodesWindow(n, ne int) {
+	tx := verifSeqGraph(n, ne)
+	outbound := verifrt.NondetChoice("direction", 2) == 0
+	dir := graph.DirectionOutbound
+	if !outbound {
+		dir = graph.DirectionInbound
+	}
+	root := verifrt.NondetChoice("root", n)
+	reach := verifReachable(tx.edges, n, root, outbound)
+	arrivals := make([]int, n)
+	for _, e := range tx.edges {
+		from, to := e.start, e.end
+		if !outbound {
+			from, to = e.end, e.start
+		}
+		if reach[from] {
+			arrivals[to]++
+		}
+	}
+	for i := 0; i < n; i++ {
+		if (i == root && arrivals[i] != 0) || (i != root && reach[i] && arrivals[i] != 1) {
+			return // not tree shaped from this root
+		}
+	}
+	rejected := verifrt.NondetChoice("filtered node", n+1) // n = no filter
+	var filter NodeFilter
+	if rejected < n {
+		filter = func(node *graph.Node) bool { return node.ID != tx.nodes[rejected].ID }
+	}
+	skip, limit := verifrt.NondetChoice("skip", 3), verifrt.NondetChoice("limit", 3)
+	got, err := AcyclicTraverseNodes(tx, TraversalPlan{Root: tx.nodes[root], Direction: dir, Skip: skip, Limit: limit}, filter)
+	verifrt.Assert(err == nil, "AcyclicTraverseNodes succeeds on a healthy transaction")
+	passing, returned := 0, 0
+	for i := 0; i < n; i++ {
+		_, in := got[tx.nodes[i].ID]
+		if in {
+			verifrt.Assert(reach[i] && i != rejected, "only reachable nodes that pass the filter are returned")
+		}
+		if i != root && reach[i] && i != rejected {
+			passing++
+			if in {
+				returned++
+			}
+		}
+	}
+	window := passing - skip
+	if window < 0 {
+		window = 0
+	}
+	if limit > 0 && window > limit {
+		window = limit
+	}
+	verifrt.Assert(returned == window, "skip and limit count the nodes that pass the filter, not the ones it rejects")
+	_, rootIn := got[tx.nodes[root].ID]
+	verifrt.Assert(rootIn == (root != rejected), "the root is returned exactly if it passes the filter")
+}
+
 // VerifC17Memory: Traversal stops with ErrGraphQueryMemoryLimit when the path tree outgrows
 // the transaction's limit, and the path tree size it compares is the recomputed size.
 func VerifC17Memory(n, ne int) {
